@@ -12,6 +12,13 @@
             operands that admit known divisions; Keys must be 0..MaxKey).  One state carries the
             expected row set of EVERY join type (inner, left, right, outer,
             leftsemi), and the expected row sequence where order is promised.
+   premerge column joins (one key and key PAIRS) whose operands are PRE-PARTITIONED:
+            a salted sample of key sequences x (pre-stage of the left operand,
+            pre-stage of the right operand) over every stage (shuffle / earlier
+            hash join / groupby with split_out / set_index) and every relation of
+            its columns K' to the join keys K (equal, proper subset, proper
+            superset, overlapping, disjoint).  Same expected rows: the pre-stage
+            must not matter.
    concat   two frames with 0..CRows rows or three frames with 0..1 rows, every
             label sequence over CLabels, every column menu, join in {outer,
             inner}; a salted 1 / CMod hash sample.
@@ -30,7 +37,8 @@
    same rows), order = multiset, concat and asof sanity.                      *)
 EXTENDS Joins, Json
 
-CONSTANTS Fams,        \* subset of {"merge", "concat", "concat1", "asof", "layouts"}
+CONSTANTS Fams,        \* subset of {"merge", "premerge", "concat", "concat1", "asof", "layouts"}
+          PMod, PreMod,  \* premerge: 1 / PMod of the key-sequence pairs, 1 / PreMod of the (left pre, right pre) pairs
           Keys,        \* non-missing key values, e.g. {0, 1, 2}
           MaxL, MaxR,  \* merge: rows per side
           Full,        \* merge: exhaustive while |L| + |R| <= Full
@@ -49,13 +57,16 @@ RECURSIVE HashSeq(_)
 HashSeq(s) == IF s = <<>> THEN 7 ELSE (HashSeq(Tail(s)) * 5 + Head(s) + 1) % 1009
 Sample(a, b, extra, modulus) == ((HashSeq(a) * 31 + HashSeq(b) * 17 + extra * 7 + Salt) % modulus) = 0
 
-ModeIx(mode) == CASE mode = "cc" -> 1 [] mode = "ii" -> 2 [] mode = "ic" -> 3 [] mode = "ci" -> 4
+ModeIx(mode) == CASE mode = "cc" -> 1 [] mode = "ii" -> 2 [] mode = "ic" -> 3 [] mode = "ci" -> 4 [] mode = "kk" -> 5
 
 -----------------------------------------------------------------------------
 (* merge                                                                      *)
 \* the operand whose key is the column k has the index 0, 1, 2, ... ; the one whose key is the index has no k
+\* the second key column follows one of three patterns, picked by the hash of the key sequence
+K2(p, i) == CASE p = 0 -> 0 [] p = 1 -> i % 2 [] OTHER -> (i \div 2) % 2
 MkRows(ks, onIndex) ==
-  [i \in DOMAIN ks |-> [rid |-> i, idx |-> IF onIndex THEN ks[i] ELSE i - 1, k |-> IF onIndex THEN 0 ELSE ks[i]]]
+  [i \in DOMAIN ks |-> [rid |-> i, idx |-> IF onIndex THEN ks[i] ELSE i - 1, k |-> IF onIndex THEN 0 ELSE ks[i],
+                         k2 |-> K2(HashSeq(ks) % 3, i)]]
 
 SeqsTable == [n \in 0..(IF MaxL > MaxR THEN MaxL ELSE MaxR) |-> AllSeqs(n, KeysNA)]
 
@@ -73,7 +84,19 @@ MergeSeeds == { [fam |-> "mseed", mode |-> mode, nl |-> nl, nr |-> nr, sl |-> sl
 MaxKey == Max(Keys)
 
 MergeCase(mode, lk, rk) ==
-  [fam |-> "merge", mode |-> mode, L |-> MkRows(lk, mode \in {"ii", "ic"}), R |-> MkRows(rk, mode \in {"ii", "ci"})]
+  [fam |-> "merge", mode |-> mode, L |-> MkRows(lk, mode \in {"ii", "ic"}), R |-> MkRows(rk, mode \in {"ii", "ci"}),
+   lpre |-> NoPre, rpre |-> NoPre]
+
+(* pre-partitioned operands: the stages and column sets on offer for a mode, as a sequence (so that a pair of them
+   can be sampled by index)                                                                                   *)
+PreOns(mode) == IF mode = "kk" THEN << <<"k", "k2">>, <<"k">>, <<"k2">>, <<"k", "k2", "v">>, <<"k", "v">>, <<"v">> >>
+                ELSE << <<"k">>, <<"k", "k2">>, <<"k", "v">>, <<"k2">>, <<"v">> >>
+PreMenu(mode) ==
+  LET ons == PreOns(mode)
+      of(how) == [q \in DOMAIN ons |-> [how |-> how, on |-> ons[q]]]
+  IN <<NoPre>> \o of("shuffle") \o of("merge") \o of("groupby") \o SelectSeq(of("setindex"), LAMBDA pr : Len(pr.on) = 1)
+PreSeeds == { [fam |-> "pseed", mode |-> mode, nl |-> nl, nr |-> nr, sl |-> sl] :
+              mode \in {"cc", "kk"}, nl \in 2..MaxL, nr \in 2..MaxR, sl \in 0..(Slices - 1) }
 MergeExpected(c) ==
   [rows |-> [h \in HowsOf(c.mode) |-> MergeRows(c.L, c.R, h, c.mode)],
    seq  |-> IF c.mode = "ii" /\ UniqueSortedIdx(c.L) /\ UniqueSortedIdx(c.R)
@@ -117,7 +140,7 @@ MaxRows == Max({MaxL, MaxR, CRows, AMaxL, AMaxR, 3})
 LayoutSeeds == { [fam |-> "layouts", n |-> n] : n \in 0..MaxRows }
 
 -----------------------------------------------------------------------------
-Seeds == (IF "merge" \in Fams THEN MergeSeeds ELSE {}) \cup (IF "concat" \in Fams THEN ConcatSeeds ELSE {})
+Seeds == (IF "merge" \in Fams THEN MergeSeeds ELSE {}) \cup (IF "premerge" \in Fams THEN PreSeeds ELSE {}) \cup (IF "concat" \in Fams THEN ConcatSeeds ELSE {})
          \cup (IF "concat1" \in Fams THEN Concat1Seeds ELSE {}) \cup (IF "asof" \in Fams THEN AsofSeeds ELSE {})
          \cup (IF "layouts" \in Fams THEN LayoutSeeds ELSE {})
 
@@ -138,6 +161,17 @@ Next ==
                /\ KeepBuckets(jc.mode, jc.nl, jc.nr, x, y)
                /\ \E lk \in Bucket[jc.nl][x], rk \in Bucket[jc.nr][y] :
                      LET c == MergeCase(jc.mode, lk, rk) IN Emit(c, MergeExpected(c))
+       [] jc.fam = "pseed" ->
+            \E x \in { z \in 0..(Mod - 1) : z % Slices = jc.sl }, y \in 0..(Mod - 1) :
+               /\ ((x * 13 + y * 29 + ModeIx(jc.mode) * 5 + Salt) % PMod) = 0
+               /\ \E lk \in Bucket[jc.nl][x], rk \in Bucket[jc.nr][y] :
+                     LET base == MergeCase(jc.mode, lk, rk)
+                         menu == PreMenu(jc.mode)
+                     IN \E a \in DOMAIN menu, b \in DOMAIN menu :
+                           /\ a # 1 \/ b # 1                                   \* at least one operand is pre-partitioned
+                           /\ ((HashSeq(lk) + HashSeq(rk) * 3 + a * 7 + b * 11 + Salt) % PreMod) = 0
+                           /\ PreOK(base.L, menu[a]) /\ PreOK(base.R, menu[b])
+                           /\ LET c == [base EXCEPT !.lpre = menu[a], !.rpre = menu[b]] IN Emit(c, MergeExpected(c))
        [] jc.fam = "sseed" ->       \* index-index joins of sorted operands: the ones that admit known divisions
             \E lk \in SortedSeqs(jc.nl, 0, MaxKey), rk \in SortedSeqs(jc.nr, 0, MaxKey) :
                LET c == MergeCase(jc.mode, lk, rk) IN Emit(c, MergeExpected(c))
@@ -173,11 +207,10 @@ PairsSane ==
     LET L == jc.L   R == jc.R   md == jc.mode
         rows(h) == je.rows[h]
         lk(row) == LKey(row, md)   rk(row) == RKey(row, md)
-        vals == Asc({ lk(L[i]) : i \in DOMAIN L } \cup { rk(R[j]) : j \in DOMAIN R })
-    IN /\ Cardinality(rows("inner")) = SumSeq([q \in DOMAIN vals |-> CountKey(L, lk, vals[q]) * CountKey(R, rk, vals[q])])
+    IN /\ Cardinality(rows("inner")) = SumSeq([i \in DOMAIN L |-> CountKey(R, rk, lk(L[i]))])      \* duplicates multiply
        /\ \A t \in rows("outer") : (t[1] # 0 /\ t[2] # 0) => (t[4] = t[5] /\ t[3] = 0 /\ t \in rows("inner"))
-       /\ \A t \in rows("outer") : t[2] = 0 => (t[3] = 1 /\ t[5] = NA /\ t[8] = NA /\ ~\E u \in rows("inner") : u[1] = t[1])
-       /\ \A t \in rows("outer") : t[1] = 0 => (t[3] = 2 /\ t[4] = NA /\ t[7] = NA /\ ~\E u \in rows("inner") : u[2] = t[2])
+       /\ \A t \in rows("outer") : t[2] = 0 => (t[3] = 1 /\ t[5] = NoKey(md) /\ t[8] = NA /\ ~\E u \in rows("inner") : u[1] = t[1])
+       /\ \A t \in rows("outer") : t[1] = 0 => (t[3] = 2 /\ t[4] = NoKey(md) /\ t[7] = NA /\ ~\E u \in rows("inner") : u[2] = t[2])
        /\ rows("left") \cup rows("right") = rows("outer")
        /\ rows("left") \cap rows("right") = rows("inner")
        /\ { t[1] : t \in rows("left") } = { L[i].rid : i \in DOMAIN L }
@@ -187,8 +220,17 @@ PairsSane ==
             /\ Cardinality(rows("leftsemi")) = Cardinality({ t[1] : t \in rows("inner") })
             /\ \A t \in rows("leftsemi") : t[2] = 0 /\ t[8] = NA
 
+\* (for a pair key the assignment is hf of the first component, shifted by the second: still a function of the key)
+HKey(key, mode) == IF mode = "kk" THEN (IF key[1] = NA THEN NA ELSE (key[1] + key[2]) % 3) ELSE key
 \* the decomposition laws are expensive: they are checked on a salted 1 / HeavyMod sample of the merge cases
-Heavy == IsCase("merge") /\ Sample([i \in DOMAIN jc.L |-> LKey(jc.L[i], jc.mode)], [j \in DOMAIN jc.R |-> RKey(jc.R[j], jc.mode)], 3, HeavyMod)
+Heavy == IsCase("merge") /\ Sample([i \in DOMAIN jc.L |-> HKey(LKey(jc.L[i], jc.mode), jc.mode)], [j \in DOMAIN jc.R |-> HKey(RKey(jc.R[j], jc.mode), jc.mode)], 3, HeavyMod)
+
+\* pre-partitioned cases respect the preconditions of their stages, and (design check) a pre-stage that hash-partitions
+\* an operand on K' - ANY function of K' - leaves the expected rows as they are: they are those of the plain operands
+PreSane ==
+  (IsCase("merge") /\ (jc.lpre # NoPre \/ jc.rpre # NoPre)) =>
+     /\ PreOK(jc.L, jc.lpre) /\ PreOK(jc.R, jc.rpre)
+     /\ je = MergeExpected([jc EXCEPT !.lpre = NoPre, !.rpre = NoPre])
 
 \* hash join: ANY function of the key that sends both operands to 2 partitions, joined partition by partition
 Sel(F, key(_), hf, p) == SelectSeq(F, LAMBDA row : hf[key(row)] = p)
@@ -196,8 +238,8 @@ HashDecomposes ==
   Heavy =>
     \A hf \in { g \in [KeysNA -> 1..2] : g[NA] = 1 } :        \* (the two partitions are interchangeable)
       \A h \in HowsOf(jc.mode) :
-        je.rows[h] = UNION { MergeRows(Sel(jc.L, LAMBDA row : LKey(row, jc.mode), hf, p),
-                                       Sel(jc.R, LAMBDA row : RKey(row, jc.mode), hf, p), h, jc.mode) : p \in 1..2 }
+        je.rows[h] = UNION { MergeRows(Sel(jc.L, LAMBDA row : HKey(LKey(row, jc.mode), jc.mode), hf, p),
+                                       Sel(jc.R, LAMBDA row : HKey(RKey(row, jc.mode), jc.mode), hf, p), h, jc.mode) : p \in 1..2 }
 
 \* broadcast / single-partition join: ANY row partition of one operand, every part joined with the WHOLE other
 \* operand - valid when the other side never contributes unmatched rows
